@@ -307,6 +307,31 @@ def ob_binop_mod(crate, fname, modulus, spec, tag, nargs=2, pre="canonical"):
                           stubs=["u256_add, u256_sub, u256_cmp -> exact integer statements proved at L1"])
 
 
+def barrett_candidate(N, budget_s=40):
+    """structured operands on which the natively built mod_n_mul disagrees with a*b mod N, or None"""
+    import random, time as _t
+    from core import native
+    rnd = random.Random(int(os.environ.get("VERIF_SEED", "0") or 0) * 31 + 7)
+    def operand():
+        k = rnd.choice([1, 1, 2, 2, 3, 4])
+        pos = rnd.sample(range(4), k)
+        v = 0
+        for p_ in pos:
+            v |= rnd.choice([1, (1 << 64) - 1, 1 << 63, rnd.getrandbits(8) | 1, rnd.getrandbits(64), rnd.getrandbits(64), (1 << 64) - 1 - rnd.getrandbits(4)]) << (64 * p_)
+        return v % N
+    end = _t.time() + budget_s
+    n = 0
+    while _t.time() < end:
+        a, b = operand(), operand()
+        got = native("sm9_mod_n_mul", "%064x" % a, "%064x" % b)
+        if got is None:
+            return None
+        n += 1
+        if got != "ok:%064x" % (a * b % N):
+            return a, b
+    return None
+
+
 def ob_barrett_mod_n_mul(crate, N):
     """mod_n_mul(a,b) = a*b mod N for canonical a, b (Barrett reduction), by a lemma chain cut at the quotient estimate."""
     def body(stats):
@@ -371,7 +396,43 @@ def ob_barrett_mod_n_mul(crate, N):
                       "discarded high limbs contribute 0 or 2^320")
             hyC = hyB + [val(dom, Sl) == Qh * N, z3.Or(z3.And(K == 0, LOW == D), z3.And(K == 1, LOW == D - (1 << 320)))]
             goal = z3.And(R >= 0, R < N, z3.Or(R == Z - Qh * N, R == Z - (Qh + 1) * N))
-            discharge(stats, hyC, goal, "mod_n_mul(a,b) == a*b - (q^ or q^+1)*N, canonical", timeout_s=120, hops=(3, 4))
+            named = {"%s%d" % (n_, i): z3.Int("%s%d" % (n_, i)) for n_ in "ab" for i in range(4)}
+            try:
+                discharge(stats, hyC, goal, "mod_n_mul(a,b) == a*b - (q^ or q^+1)*N, canonical", None, timeout_s=120, hops=(3, 4))
+            except Inconclusive:
+                # the solver is stuck: look for a candidate by running the real function natively on structured operands
+                # (few non-zero limbs, limbs 0 / 1 / 2^64-1 / 2^63 / random); a candidate counts only if the SOLVER then confirms it
+                # on the encoding with the operands fixed
+                cand = barrett_candidate(N)
+                if cand is None:
+                    raise
+                a_, b_ = cand
+                ce_ = {("a%d" % i): hex((a_ >> (64 * i)) & (W64 - 1)) for i in range(4)} | {("b%d" % i): hex((b_ >> (64 * i)) & (W64 - 1)) for i in range(4)}
+                # confirm on the ENCODING, first by executing the MIR of mod_n_mul (and of the limb routines it calls) on these operands
+                c_ = load_crate(crate)
+                def conc(ctx_):
+                    dom_ = INT(); ex_ = Ex(c_, dom_, ctx_)
+                    mk_ = lambda v: Ref(arr_cell([Sc((v >> (64 * i)) & (W64 - 1), "u64") for i in range(4)], "x"))
+                    return ex_.run_fn(c_.find("mod_n_mul"), [mk_(a_), mk_(b_)])
+                got = None
+                try:
+                    cp = explore(conc, max_paths=2)
+                    if len(cp) == 1 and not cp[0][0].aborted and all(x.conc() for x in cp[0][1].f):
+                        got = sum(x.v << (64 * i) for i, x in enumerate(cp[0][1].f))
+                except Unsupported:
+                    got = None
+                stats.log.append(("concrete run of the encoding on the native candidate", "differs" if got is not None and got != a_ * b_ % N else "agrees/undetermined", 0))
+                if got is not None and got != a_ * b_ % N:
+                    raise Violation("mod_n_mul(a,b) != a*b mod N for the operands of the counterexample (structured native search; the MIR of mod_n_mul executed on them gives %x)" % got, ce_)
+                # otherwise ask the solver about the symbolic encoding with the operands fixed
+                subs = [(named["a%d" % i], z3.IntVal((a_ >> (64 * i)) & (W64 - 1))) for i in range(4)] + [(named["b%d" % i], z3.IntVal((b_ >> (64 * i)) & (W64 - 1))) for i in range(4)]
+                hs = [z3.simplify(z3.substitute(h_, *subs)) for h_ in hyC]
+                g_ = z3.simplify(z3.substitute(goal, *subs))
+                st, m_, dt = smt.prove([h_ for h_ in hs if not z3.is_true(h_)], g_, 60, stats)
+                stats.log.append(("solver confirmation of the native candidate", st, round(dt, 3)))
+                if st == smt.SAT:
+                    raise Violation("mod_n_mul(a,b) != a*b mod N for the operands of the counterexample (structured native search, confirmed by the solver on the encoding)", ce_)
+                raise
         return {"paths": len(live)}
     return run_obligation("L2_%s_mod_n_mul_barrett" % crate.replace("-", ""), ["%s::mod_n_mul" % crate], "all canonical a, b < N", body,
                           stubs=["u256_mul, u320_mul, u256_sub, u256_cmp -> exact integer statements (L1)"])
